@@ -176,6 +176,7 @@ class IMMachine(FormatMachine):
     ROUNDTRIP_PROP = "C02"
     KIND = "json"
     FILE = "images.json"
+    HEADER_TYPE = "productmd.images"
 
     def mods(self):
         import productmd.images as m
@@ -512,6 +513,73 @@ class IMMachine(FormatMachine):
         d["must_key"] = "colliding-pair/v%s/%s" % (ver, where)
         return "injected:" + d["must"]
 
+    def op_im_downgrade(self, op):
+        """F8: the stored manifest is rewritten the way format 1.0 / 1.1 would have held it (independent
+        down-converter following doc/images-1.0.rst, images-1.1.rst): no header type and no subvariant in
+        1.0, no unified/additional_variants, and - for the chosen variants - source images filed under a
+        'src' architecture next to the binary ones."""
+        path = self.path(op)
+        d = self.durable.get(path)
+        if d is None or not d["clean"] or d["expected"] is None or d.get("legacy"):
+            return "noop"
+        ver = op.get("version", "1.0")
+        doc = json.loads(self.fs.get(path).decode("utf-8"))
+        cells = doc["payload"]["images"]
+        if vtuple(ver) <= (1, 0):
+            doc["header"] = {"version": ver}
+        else:
+            doc["header"] = {"version": ver, "type": "productmd.images"}
+        src_variants = op.get("src_variants", [])
+        moved = 0
+        for variant in sorted(cells):
+            for arch in cells[variant]:
+                for img in cells[variant][arch]:
+                    if vtuple(ver) <= (1, 0):
+                        img.pop("subvariant", None)
+                    img.pop("unified", None)
+                    img.pop("additional_variants", None)
+            if src_variants == "all" or variant in src_variants:
+                src = {}
+                for arch in sorted(cells[variant]):
+                    keep = []
+                    for img in cells[variant][arch]:
+                        if img["arch"] == "src":
+                            src[cjson(img)] = img
+                            moved += 1
+                        else:
+                            keep.append(img)
+                    cells[variant][arch] = keep
+                if src:
+                    cells[variant]["src"] = [src[k] for k in sorted(src)]
+        # expected post-upgrade content, computed from the OLD document by the documented mapping
+        exp_cells = {}
+        for variant in cells:
+            binary = [a for a in cells[variant] if a != "src"]
+            if not binary and "src" in cells[variant]:
+                return "noop-src-only"       # outside the claim: nowhere to re-file
+            for arch in binary:
+                imgs = list(cells[variant][arch]) + list(cells[variant].get("src", []))
+                out = []
+                for img in imgs:
+                    e = copy.deepcopy(img)
+                    e.setdefault("subvariant", "")
+                    e["unified"] = False
+                    e["additional_variants"] = []
+                    out.append(dict((f, e[f]) for f in IMG_FIELDS))
+                if out:
+                    exp_cells.setdefault(variant, {})[arch] = sorted(out, key=cjson)
+        if collisions(exp_cells):
+            # >= 1.1: would (rightly) be refused on load, not a legal older document; 1.0: the pre-1.1
+            # exemption case, exercised by C09 (known finding), kept out of the upgrade oracle
+            return "noop-collision"
+        if moved:
+            CTX.probe("c10.src_images_moved_to_src_key", moved)
+        self.fs.put(path, json.dumps(doc, indent=4, sort_keys=True, separators=(",", ": ")))
+        self.durable[path] = {"expected": {"compose": d["expected"]["compose"], "cells": exp_cells}, "bytes": self.fs.get(path),
+                              "clean": True, "legacy": True, "legacy_version": ver, "legacy_prop": op.get("tag", "C05"),
+                              "source": "downgrade", "kw": {}}
+        return "downgraded:%s:%d" % (ver, moved)
+
     def model_from_expected(self, s, expected):
         m = {"compose": dict(expected["compose"]), "version": CURRENT, "imgs": {}, "cells": {},
              "legacy_collision": "legacy-load" if collisions(expected["cells"]) else False, "version_origin": "loaded"}
@@ -542,7 +610,7 @@ class IMMachine(FormatMachine):
         if r == "restarted-unspec" and d.get("must") == "accept" and d.get("must_prop") == "C09":
             s.model["legacy_collision"] = "legacy-load"
             CTX.probe("c09.legacy_document_with_collision_loaded")
-        if r == "restarted":
+        if r in ("restarted", "upgraded"):
             self.check_unique(s, "after-restart")
             for variant in s.obj.images:
                 for arch in s.obj.images[variant]:
